@@ -93,7 +93,10 @@ func (m *HQModel) faultFor(kind string, n int) string {
 	}
 	fs := m.r.sc.HQ.Faults[kind]
 	if n < len(fs) {
-		return fs[n]
+		return strings.TrimSuffix(fs[n], "*")
+	}
+	if len(fs) > 0 && strings.HasSuffix(fs[len(fs)-1], "*") {
+		return strings.TrimSuffix(fs[len(fs)-1], "*") // an outage that does not end ("500*")
 	}
 	return ""
 }
